@@ -66,6 +66,9 @@ def run(pid, scen, seed, tier, stats, failing, broken, sh, CACHE, TARGET, infra,
         rc, out = sh(cmdline, timeout=7200)
     except subprocess.TimeoutExpired:
         rc, out = -1000, 'timeout after 7200 s'
+    if rc in (-1, -2, -15):
+        # SIGHUP / SIGINT / SIGTERM come from outside (an operator or a supervising tool), not from the code under test
+        infra(f'sim {name} was terminated from outside (signal {-rc})')
     if rc < 0:
         # killed by a signal (allocation failure / abort / OOM killer) or not finished in two hours: the code under test
         # made whole executions run away. That is a verdict about the code (unbounded loop or memory), not about the
